@@ -145,8 +145,18 @@ class Program:
 
 
 def run_cppcheck(d, args, timeout=120):
-    p = subprocess.run([vlib.CPPCHECK, "-q", "--template=" + TEMPLATE] + args, cwd=d,
-                       stdout=subprocess.PIPE, stderr=subprocess.PIPE, timeout=timeout)
+    p = None
+    for attempt in range(60):
+        # the shared binary may be relinked by a concurrent build of another check: retry
+        try:
+            p = subprocess.run([vlib.CPPCHECK, "-q", "--template=" + TEMPLATE] + args, cwd=d,
+                               stdout=subprocess.PIPE, stderr=subprocess.PIPE, timeout=timeout)
+            break
+        except (PermissionError, FileNotFoundError, OSError):
+            import time
+            time.sleep(2)
+    if p is None:
+        raise vlib.BuildError("cannot execute " + vlib.CPPCHECK)
     lines = [l for l in p.stderr.decode("latin-1").split("\n") if l]
     return p.returncode, lines, p.stdout.decode("latin-1")
 
@@ -227,7 +237,7 @@ def gen_config(rng, prog, want_nofail=True):
         for _ in range(rng.choice([0, 0, 1, 1, 2, 3])):
             spec, s = cli_supp(rng, prog)
             if rng.random() < 0.3:
-                spec, s = "unmatchedSuppression", [b"unmatchedSuppression", "", -1, -1, -1, 0, b"", b"", 0, False, False, False, False]
+                spec, s = "unmatchedSuppression", ["unmatchedSuppression", "", -1, -1, -1, 0, b"", b"", 0, False, False, False, False]
             if G.supp_key(s) in seen:
                 continue
             seen.add(G.supp_key(s))
@@ -239,13 +249,6 @@ def gen_config(rng, prog, want_nofail=True):
         "inline": rng.random() < 0.5,
         "kind": rng.choice([0, 0, 1, 2]),
     }
-
-
-def pm_plain_ok(prog, cfg):
-    """the model's PathMatch instance is equality: keep to suppression file names for which
-    PathMatch::match is equality on this program's plain names (no wildcard -> local; wildcard
-    file names never reach pm in a way that matters only if they match nothing or everything)"""
-    return True
 
 
 JARGS = {0: ["-j1"], 1: ["-j2", "--executor=thread"], 2: ["-j2", "--executor=process"]}
